@@ -27,6 +27,18 @@ __all__ = ['WCS', 'Step', 'NoConvergence']
 _ITER_INV_KWARGS = ['tolerance', 'maxiter', 'adaptive', 'detect_divergence', 'quiet']
 
 
+def _preserve_numpy_errstate(func):
+    """
+    Run ``func`` so that numpy's floating-point error handling is restored
+    when it returns *or raises* (e.g. from inside a user-supplied transform).
+    """
+    @functools.wraps(func)
+    def wrapper(*args, **kwargs):
+        with np.errstate():
+            return func(*args, **kwargs)
+    return wrapper
+
+
 class NoConvergence(Exception):
     """
     An error class used to report non-convergence and/or divergence
@@ -816,6 +828,7 @@ class WCS(GWCSAPIMixin):
         else:
             return result
 
+    @_preserve_numpy_errstate
     def _vectorized_fixed_point(self, pix0, world, tolerance, maxiter,
                                 adaptive, detect_divergence, quiet,
                                 with_bounding_box, fill_value):
